@@ -33,6 +33,7 @@ Expect(c) ==
       bnd |-> [v \in 1 .. n |-> OnBoundary(st, k, v - 1)],
       pcap |-> [v \in 1 .. n |-> MinSeats(st, k, v - 1) + 2],
       zero |-> [v \in 1 .. n |-> st[v] = 0],
+      npos |-> Cardinality(Positive(st)),
       mustConstruct |-> MustConstruct("any", ZeroIds(st)),
       decay |-> [i \in DOMAIN DecayParams |->
                    LET p == DecayParams[i] IN
@@ -43,7 +44,8 @@ Expect(c) ==
 \* which guarantees apply to which strategy (read by the harness)
 ASSUME PrintT(<<"TABLE", ToJson([all |-> AllStrategies, stakeProportional |-> StakeProportional,
                                  faitAccompli |-> FaitAccompli, decaying |-> Decaying,
-                                 fa1Exact |-> FaitAccompli1, partitionFallback |-> PartitionFallback])>>)
+                                 fa1Exact |-> FaitAccompli1, partitionFallback |-> PartitionFallback,
+                                 shuffles |-> ShuffleStrategies])>>)
 
 Init == /\ cs \in Cases
         /\ PrintT(<<"CASE", ToJson(Expect(cs))>>)
@@ -129,6 +131,46 @@ DecayInfeasibleNone ==
     (~DecayFeasible(cs.st, cs.k, p[1], p[2]) /\ cs.k <= BruteK) =>
       \A c \in [1 .. cs.k -> Ids(cs.st)] :
         ~(WellFormed(c, cs.k, cs.st) /\ DecayCap(c, p[1], p[2]))
+
+---------------------------------------------------------------------------
+(* weighted shuffle: the guarantees are satisfiable together and discriminate (the stake  *)
+(* vector matters, not k: evaluated on the k = 1 copy of every stake vector)              *)
+
+ShuffleCanonOK ==
+  cs.k = 1 =>
+    LET c == CanonShuffle(cs.st)
+        n == Len(cs.st)
+        z == ZeroIds(cs.st)
+        np == Cardinality(Positive(cs.st))
+    IN /\ ShufflePermutation(c, n)
+       /\ ShuffleZerosLast(c, z, np)
+       /\ ShuffleZerosLastDef(c, z)
+       /\ \A m \in 0 .. n :
+            LET part == SubSeq(c, 1, m)
+                rest == SubSeq(c, m + 1, n)
+            IN /\ ShufflePrefix(part, c, m)
+               /\ ShuffleContinues(part, rest, c)
+               /\ ShuffleRemoves(part, rest, n)
+               /\ ShuffleRestZerosLast(part, rest, z, np)
+
+\* over ALL sequences of validator ids of length n (brute force):
+\*  - permutation <=> every validator exactly once
+\*  - "removes exactly what was drawn" for some / every split <=> permutation
+\*  - the evaluated form of zeros-last agrees with its definition on permutations
+ShuffleBrute ==
+  cs.k = 1 =>
+    LET n == Len(cs.st)
+        z == ZeroIds(cs.st)
+        np == Cardinality(Positive(cs.st))
+    IN \A c \in [1 .. n -> Ids(cs.st)] :
+         /\ ShufflePermutation(c, n) <=> (\A v \in Ids(cs.st) : Seats(c, v) = 1)
+         /\ \A m \in 0 .. n :
+              ShuffleRemoves(SubSeq(c, 1, m), SubSeq(c, m + 1, n), n) <=> ShufflePermutation(c, n)
+         /\ ShufflePermutation(c, n) =>
+              /\ ShuffleZerosLast(c, z, np) <=> ShuffleZerosLastDef(c, z)
+              /\ \A m \in 0 .. n :
+                   ShuffleZerosLast(c, z, np) =>
+                     ShuffleRestZerosLast(SubSeq(c, 1, m), SubSeq(c, m + 1, n), z, np)
 
 \* the cap is the documented ceil(max_samples)
 ASSUME /\ CapSeats(1, 1) = 1 /\ CapSeats(2, 1) = 2 /\ CapSeats(5, 2) = 3 /\ CapSeats(7, 2) = 4
